@@ -11,6 +11,7 @@ package are folded over Model B here, and each line yields one canonical observa
 S, F are small integers; N, K, V, T are byte strings (`-` = nil, `h<hex>` otherwise); W is 0/1.
 -/
 import Gkv.Model.Store
+import Gkv.Model.ScanFast
 import Gkv.Model.Blocks
 import Gkv.Model.Iter
 open Std
